@@ -958,11 +958,37 @@ impl RefCore {
                 (ctx.obs, next)
             }
             Err(code) => {
+                // when several reasons apply the statements do not rank them
+                let mut codes = vec![code];
+                let (key, client, literal): (Option<&String>, Option<C>, bool) = match op {
+                    Op::Set(c, k, _) | Op::CSet(c, k, _, _) | Op::Delete(c, k) | Op::SPubInit(c, _, k) => {
+                        (Some(k), Some(*c), true)
+                    }
+                    Op::PDelete(c, p) => (Some(p), Some(*c), false),
+                    _ => (None, None, false),
+                };
+                if let (Some(k), Some(c)) = (key, client) {
+                    if let Err(e) = check_read_only(k, c) {
+                        codes.push(e);
+                    }
+                    if literal {
+                        if !matches!(op, Op::SPubInit(..)) {
+                            if let Err(e) = parse_key(k) {
+                                codes.push(e);
+                            }
+                        }
+                    } else if has_inner_multi(&parse_pattern(k)) {
+                        codes.push(E_ILLEGAL_MULTI);
+                        codes.push(E_MULTI_POS);
+                    }
+                }
+                codes.sort();
+                codes.dedup();
                 // a refused request changes nothing — except that a waiting client's release
                 // withdraws its own pending acquisitions (left open by the statement, follows
                 // the implementation)
                 let keep_lock_effects = matches!(op, Op::ReleaseLock(..)) && code == E_KEY_LOCKED;
-                let mut obs = MObs::new(Expect::err(code));
+                let mut obs = MObs::new(Expect::errs(&codes));
                 if keep_lock_effects {
                     obs.acq = ctx.obs.acq.clone();
                     obs.acq.sort();
